@@ -331,7 +331,8 @@ struct Limits
           depth(0),
           nodes(0),
           movetime(0),
-          infinite(false)
+          infinite(false),
+          clock(false)
     {
         timeleft[WHITE] = timeleft[BLACK] = 0;
         timeinc[WHITE] = timeinc[BLACK] = 0;
@@ -348,6 +349,8 @@ struct Limits
     int mate;
     int movetime;
     bool infinite;
+    // wtime / btime were given (a remaining time of 0 is a clock state too)
+    bool clock;
 };
 
 /* PCV
